@@ -173,6 +173,149 @@ def xstring_cases():
     return cases
 
 
+# ---- DecimalNumber: `number` declarations with "dec", at the positions the conversion layer of Sem/Decimal.lean knows
+
+DEC_STRINGS = ["1.5", " 5 ", "1_000", "+.5", "5.", "1e3", "-0", "٣", "0.1", "-2.50", "12", "3", "0", "10", "6", "abc", "", ".", "0x10", "1,5", "e5",
+               "1.5.2", "--1", "NaN", "Infinity", "-Infinity", "sNaN", "1e30", "1e-30", "0.1000000000000000055511151231257827021181583404541015625"]
+
+
+def dec_positions(cls):
+    """[[field, "bare" | "items" | "values"]] of the class's DecimalNumber fields; None if one sits anywhere else"""
+    out = []
+    for name, fd in cls["fields"]:
+        if fd.get("k") == "number" and fd.get("dec"):
+            out.append([name, "bare"])
+        elif fd.get("k") == "seqOf" and fd.get("seq", "list") == "list" and fd["item"].get("dec"):
+            out.append([name, "items"])
+        elif fd.get("k") == "mapOf" and fd["val"].get("dec") and '"dec"' not in json.dumps(fd["key"]):
+            out.append([name, "values"])
+        elif '"dec"' in json.dumps(fd):
+            return None
+    return out
+
+
+def dec_parse_table(values):
+    """the `Decimal(str)` oracle for every string among the values: [[s, [num, den] | None]]; second result: a string
+    denotes NaN / Infinity (no finite value: the case is judged on the real code alone)"""
+    import decimal
+    from fractions import Fraction
+    strs = set()
+    for v in values:
+        gen.collect_strings(v, strs)
+    table, nonfinite = [], False
+    for s in sorted(strs):
+        try:
+            d = decimal.Decimal(s)
+        except decimal.InvalidOperation:
+            table.append([s, None])
+            continue
+        if not d.is_finite():
+            nonfinite = True
+            table.append([s, None])
+            continue
+        fr = Fraction(d)
+        table.append([s, [fr.numerator, fr.denominator]])
+    return table, nonfinite
+
+
+def _huge(j, parse_table):
+    from fractions import Fraction
+    lim = 10 ** 26
+    if any(q is not None and abs(Fraction(q[0], q[1])) >= lim for _, q in parse_table):
+        return True
+
+    def walk(x):
+        if isinstance(x, bool):
+            return False
+        if isinstance(x, int):
+            return abs(x) >= lim
+        if isinstance(x, list):
+            return any(walk(y) for y in x)
+        if isinstance(x, dict):
+            if "f" in x or "d" in x:
+                a = x.get("f") or x.get("d")
+                return abs(Fraction(a[0], a[1])) >= lim
+            return any(walk(y) for y in x.values())
+        return False
+    return walk(j)
+
+
+def decimal_cases(rng, tier, n_classes):
+    """classes with DecimalNumber fields (bare, Array items, Map values; every Number keyword) next to ordinary fields:
+    valid numbers of every accepted input type (int, float, Decimal, bool, numeric strings in every spelling the decimal
+    module takes), all boundary neighbours of every bound in each of these types, ill-formed strings, other types."""
+    from fractions import Fraction
+    cases = []
+    for ci in range(n_classes):
+        dg = gen.DeclGen(rng, max_depth=1)
+        vg = gen.ValGen(rng)
+        nd = dg.num_opts("number")
+        nd.pop("sign", None)
+        nd["dec"] = True
+        pos = rng.choice(["bare", "bare", "items", "values"])
+        if pos == "bare":
+            fd = nd
+        elif pos == "items":
+            fd = dg.size_opts({"k": "seqOf", "item": nd})
+        else:
+            fd = dg.size_opts({"k": "mapOf", "key": {"k": "string"}, "val": nd}, uniq=False)
+        fields = [["d", fd]] + [[nm, dg.decl(1)] for nm in rng.sample(["a", "b"], rng.choice([0, 0, 1]))]
+        rng.shuffle(fields)
+        cls = {"k": "struct", "name": f"Dec{ci}", "required": sorted(nm for nm, _ in fields if rng.random() < 0.6), "addl": rng.random() < 0.5,
+               "fields": fields}
+        if rng.random() < 0.2:
+            cls["ignoreNone"] = True
+        fix_accepts(cls)
+        plain = dict(nd)
+        plain.pop("dec")
+
+        def spell(x):
+            """the number x (wire int / float) in another accepted input type"""
+            fr = gen.num_of(x) if not isinstance(x, bool) else Fraction(int(x))
+            if fr is None:
+                return x
+            r = rng.random()
+            if r < 0.3:
+                return x
+            if r < 0.55:
+                return {"d": [fr.numerator, fr.denominator]}
+            import decimal
+            with decimal.localcontext() as c:
+                c.prec = 400
+                dec = decimal.Decimal(fr.numerator) / decimal.Decimal(fr.denominator)
+            s_ = format(dec, "f")
+            return rng.choice([s_, " " + s_, s_ + " ", "+" + s_ if fr >= 0 else s_])
+
+        def wrap(xs):
+            if pos == "bare":
+                return xs[0]
+            if pos == "items":
+                return {"l": list(xs)}
+            return {"m": [[f"k{i}", x] for i, x in enumerate(xs)]}
+
+        good = vg.valid(plain)
+        others = vg.valid_kw({**cls, "fields": [f for f in cls["fields"] if f[0] != "d"], "required": [r for r in cls["required"] if r != "d"], "addl": False})
+        if others is gen.NOVALUE or good is gen.NOVALUE:
+            continue
+        leafs = [("valid", spell(vg.valid(plain))) for _ in range(3)]
+        leafs += [("boundary", spell(x)) for x in vg.boundary(plain)]
+        leafs += [("boundary-raw", x) for x in vg.boundary(plain)[:6]]
+        leafs += [("string", s_) for s_ in DEC_STRINGS]
+        leafs += [("confusion", x) for x in vg.confusion()]
+        for tag, x in leafs:
+            if x is gen.NOVALUE:
+                continue
+            xs = [x] if pos == "bare" or rng.random() < 0.4 else [spell(good), x]
+            kw = others + [["d", wrap(xs)]]
+            cases.append({"suite": "construct", "cls": cls, "kw": kw, "stream": "decimal-" + tag, "re": gen.re_table(cls, kw)})
+        cases.append({"suite": "construct", "cls": cls, "kw": others, "stream": "decimal-missing", "re": gen.re_table(cls, others)})
+        cases.append({"suite": "construct", "cls": cls, "kw": others + [["d", None]], "stream": "decimal-none", "re": gen.re_table(cls, others)})
+        if pos != "bare":
+            cases.append({"suite": "construct", "cls": cls, "kw": others + [["d", wrap([])]], "stream": "decimal-empty", "re": gen.re_table(cls, others)})
+            cases.append({"suite": "construct", "cls": cls, "kw": others + [["d", rng.choice(vg.confusion())]], "stream": "decimal-confusion", "re": gen.re_table(cls, others)})
+    return cases
+
+
 _PROBE_CLASSES = {}
 
 
@@ -212,6 +355,19 @@ def deviation_findings(case, impl, prefix_accept, prefix_reject):
             key = f"{prefix_accept if lib else prefix_reject}:{fam}:{fl}"
             fails.append((key, f"the {fam} field {'accepts' if lib else 'rejects'} {s!r}, which the documented language "
                                f"{'excludes' if lib else 'includes'} ({fl})"))
+    return fails
+
+
+def oracle_only_findings(case, impl):
+    """cases without a model line (a DecimalNumber given NaN / Infinity / a value beyond the decimal context): the
+    error-class clause is still executed on the real code"""
+    fails = []
+    if "err" in impl and impl["err"] not in ("TypeError", "ValueError", "InvalidStructureErr"):
+        kind = "decimal" if "decs" in impl else top_kind(case)
+        if kind == "decimal":
+            kind += ":beyond-context" if "DivisionImpossible" in impl.get("msg", "") else ":nan-or-infinity"
+        fails.append((f"error-class:{kind}:{impl['err']}", f"rejection raised {impl['err']} (not TypeError/ValueError) for "
+                      + json.dumps(case["kw"], ensure_ascii=False)[:200] + f": {impl.get('msg')}"))
     return fails
 
 
@@ -496,6 +652,15 @@ def run_impl(case):
     dev = fmt_deviations(case.get("re"))
     if dev:
         res["fmt_dev"] = dev
+    if '"dec"' in json.dumps(cls_actual):
+        res["decs"] = dec_positions(cls_actual)
+        res["dec_parse"], res["dec_nonfinite"] = dec_parse_table([v for _, v in kw_actual])
+        if '"x": "Decimal:' in json.dumps(kw_actual) or '"x": "float:' in json.dumps(kw_actual):
+            res["dec_nonfinite"] = True
+        if '"mult"' in json.dumps(cls_actual) and _huge(kw_actual, res["dec_parse"]):
+            # `Decimal % int` needs the integer quotient to fit the decimal context (28 digits): beyond that the model's
+            # exact arithmetic is not what the decimal module does - outside the model's domain, judged on the real code alone
+            res["dec_nonfinite"] = True
     res["args_unchanged"] = snap_before == json.dumps([[k, dump.dump_value(v, ctx)] for k, v in kw.items()],
                                                       sort_keys=True)
     if x is not None and case.get("chain"):
@@ -526,9 +691,16 @@ def rename_inline_decl(d):
 
 
 def line(case, impl):
+    if impl.get("decs") is None and "decs" in impl:
+        return None          # a DecimalNumber at a position the conversion layer does not know: oracle-only
+    if impl.get("dec_nonfinite"):
+        return None          # NaN / Infinity have no value in the model: judged on the real code alone
     l = {"suite": "construct", "cls": impl.get("cls_actual", case["cls"]), "kw": impl.get("kw_actual", case["kw"]), "re": case.get("re", [])}
     if case.get("hook"):
         l["hook"] = case["hook"]
+    if impl.get("decs"):
+        l["decs"] = impl["decs"]
+        l["decParse"] = impl["dec_parse"]
     if impl.get("fmt_dev"):
         # the model answers these strings as the library does; the deviation itself is reported as a finding
         l["reOverride"] = [[formats.token(fmt), s, lib] for fmt, s, lib, _ in impl["fmt_dev"]]
@@ -600,6 +772,10 @@ def correspondence(case, impl, model):
     if "ok" in impl:
         return f"model rejects ({mres['err']}), real code accepts: " + json.dumps(impl["ok"])[:300]
     if impl["err"] != mres["err"]:
+        if impl.get("decs") and impl["err"] in model.get("errs", []):
+            # DecimalNumber items are converted one by one while the Array is validated; the model converts the argument
+            # first - with two invalid things in one case only the set of exception classes is comparable
+            return None
         if case["cls"].get("defaults") and impl["err"] in model.get("errs", []):
             # several invalid fields: the real constructor applies the defaults before the arguments, the model goes
             # field by field - which of the errors surfaces first is not part of any statement
